@@ -640,8 +640,19 @@ func ruleTAgg(w *World, r *Report) {
 }
 
 func sumTerms(v ssa.Value) []ssa.Value {
+	// a term that was carried in a field of a local struct is the value stored there
+	if r := resolveAgg(v, 0); r != v {
+		return sumTerms(r)
+	}
 	if b, ok := v.(*ssa.BinOp); ok && b.Op == token.ADD {
 		return append(sumTerms(b.X), sumTerms(b.Y)...)
+	}
+	if cv, ok := v.(*ssa.Convert); ok {
+		if r := resolveAgg(cv.X, 0); r != cv.X {
+			if _, isSum := r.(*ssa.BinOp); isSum {
+				return sumTerms(r)
+			}
+		}
 	}
 	return []ssa.Value{v}
 }
